@@ -8,8 +8,11 @@ package main
 // an independent Go-side oracle: a plain ordered finite map.
 
 import (
+	"bytes"
 	"encoding/json"
+	"encoding/xml"
 	"fmt"
+	"io"
 	"sort"
 	"strings"
 
@@ -585,6 +588,8 @@ type stepObs struct {
 	mapid     gmap
 	acceptall gmap
 	exported  gmap
+	xjson     []skv    // export.JSON() parsed back by encoding/json: (key, rendered value) in document order
+	xxml      []skv    // export.XML() parsed back by encoding/xml
 	eqs       [][3]any // j, *bool, *bool
 	repr      string
 }
@@ -602,6 +607,168 @@ func (m captureMap) Close() error                           { return nil }
 func (m captureMap) Add(k string, v value.Value) error {
 	m.c.got = append(m.c.got, gkv{k, fromValue(v)})
 	return nil
+}
+
+type skv struct{ K, V string }
+
+func renderSkv(es []skv) string {
+	var b strings.Builder
+	b.WriteString("{")
+	for i, e := range es {
+		if i > 0 {
+			b.WriteString(", ")
+		}
+		b.WriteString(e.K + ":" + e.V)
+	}
+	return b.String() + "}"
+}
+
+// a JSON object as (key, rendered value) pairs in document order (duplicates kept); nested objects are
+// rendered like Map.ToString, scalars are the exported strings
+func jsonObject(dec *json.Decoder) ([]skv, error) {
+	r := []skv{}
+	for dec.More() {
+		kt, err := dec.Token()
+		if err != nil {
+			return nil, err
+		}
+		k, ok := kt.(string)
+		if !ok {
+			return nil, fmt.Errorf("key is not a string: %v", kt)
+		}
+		vt, err := dec.Token()
+		if err != nil {
+			return nil, err
+		}
+		switch x := vt.(type) {
+		case string:
+			r = append(r, skv{k, x})
+		case json.Delim:
+			if x != '{' {
+				return nil, fmt.Errorf("unexpected %v", x)
+			}
+			in, err := jsonObject(dec)
+			if err != nil {
+				return nil, err
+			}
+			r = append(r, skv{k, renderSkv(in)})
+		default:
+			return nil, fmt.Errorf("unexpected JSON value %v", vt)
+		}
+	}
+	_, err := dec.Token() // closing brace
+	return r, err
+}
+
+func parseJSONMap(bs []byte) ([]skv, error) {
+	dec := json.NewDecoder(bytes.NewReader(bs))
+	t, err := dec.Token()
+	if err != nil {
+		return nil, err
+	}
+	if d, ok := t.(json.Delim); !ok || d != '{' {
+		return nil, fmt.Errorf("not an object")
+	}
+	r, err := jsonObject(dec)
+	if err != nil {
+		return nil, err
+	}
+	if _, err := dec.Token(); err != io.EOF {
+		return nil, fmt.Errorf("trailing data")
+	}
+	return r, nil
+}
+
+// <map k="v" .../> (attribute form) or <map><entry key="k">text | <map .../></entry>...</map> (entry form);
+// an entry without a key attribute is reported with the key "<no key attribute>"
+func xmlMap(dec *xml.Decoder, start xml.StartElement) ([]skv, error) {
+	if start.Name.Local != "map" {
+		return nil, fmt.Errorf("unexpected element %s", start.Name.Local)
+	}
+	r := []skv{}
+	for _, a := range start.Attr {
+		r = append(r, skv{a.Name.Local, a.Value})
+	}
+	for {
+		t, err := dec.Token()
+		if err != nil {
+			return nil, err
+		}
+		switch x := t.(type) {
+		case xml.EndElement:
+			return r, nil
+		case xml.StartElement:
+			if x.Name.Local != "entry" {
+				return nil, fmt.Errorf("unexpected element %s", x.Name.Local)
+			}
+			key := "<no key attribute>"
+			for _, a := range x.Attr {
+				if a.Name.Local == "key" {
+					key = a.Value
+				}
+			}
+			text, nested, isNested := "", "", false
+		entry:
+			for {
+				t2, err := dec.Token()
+				if err != nil {
+					return nil, err
+				}
+				switch y := t2.(type) {
+				case xml.CharData:
+					text += string(y)
+				case xml.StartElement:
+					in, err := xmlMap(dec, y)
+					if err != nil {
+						return nil, err
+					}
+					nested, isNested = renderSkv(in), true
+				case xml.EndElement:
+					break entry
+				}
+			}
+			if isNested {
+				r = append(r, skv{key, nested})
+			} else {
+				r = append(r, skv{key, text})
+			}
+		}
+	}
+}
+
+func parseXMLMap(bs []byte) ([]skv, error) {
+	dec := xml.NewDecoder(bytes.NewReader(bs))
+	for {
+		t, err := dec.Token()
+		if err != nil {
+			return nil, err
+		}
+		if st, ok := t.(xml.StartElement); ok {
+			return xmlMap(dec, st)
+		}
+	}
+}
+
+func exportParsed(m value.Value) ([]skv, []skv) {
+	fail := func(what string, err error) []skv { return []skv{{"<" + what + " failed>", err.Error()}} }
+	var js, xs []skv
+	je := export.JSON()
+	if err := export.Export(c13Stack, m, je); err != nil {
+		js = fail("JSON export", err)
+	} else if p, err := parseJSONMap(je.Result()); err != nil {
+		js = fail("encoding/json on "+string(je.Result()), err)
+	} else {
+		js = p
+	}
+	xe := export.XML()
+	if err := export.Export(c13Stack, m, xe); err != nil {
+		xs = fail("XML export", err)
+	} else if p, err := parseXMLMap(xe.Result()); err != nil {
+		xs = fail("encoding/xml on "+string(xe.Result()), err)
+	} else {
+		xs = p
+	}
+	return js, xs
 }
 
 func listObs(v value.Value, err error) (gmap, bool) {
@@ -808,6 +975,7 @@ func observe(hs []value.Value, cur int, probes []string) stepObs {
 		ce.got = append(ce.got, gkv{"<export failed>", gi(0)})
 	}
 	o.exported = ce.got
+	o.xjson, o.xxml = exportParsed(m)
 	// equality with the most recent earlier values and with itself, both directions
 	lo := cur - 4
 	if lo < 0 {
@@ -842,8 +1010,17 @@ func (o *stepObs) coq() string {
 	for i, e := range o.eqs {
 		es[i] = c13Names.get("(nat * option bool * option bool)", fmt.Sprintf("(%s, %s, %s)", cNat(e[0].(int)), coqOptBool(e[1].(*bool)), coqOptBool(e[2].(*bool))))
 	}
-	return fmt.Sprintf("ObOk %s %s %s %s %s %s %s %s %s %s", cN(o.size), coqEnt(o.list), cStr(o.raw), coqStrs(o.order),
-		c13Names.get("list probe", CoqList(ps)), CoqBool(o.availAll), coqEnt(o.mapid), coqEnt(o.acceptall), coqEnt(o.exported), CoqList(es))
+	sk := func(es []skv) string {
+		parts := make([]string, len(es))
+		for i, e := range es {
+			parts[i] = c13Names.get("(str * str)", "("+cStr(e.K)+", "+cStr(e.V)+")")
+		}
+		return c13Names.get("list (str * str)", CoqList(parts))
+	}
+	// whole observations repeat (every value is observed again at the end of its history): name them, too
+	return c13Names.get("obs", fmt.Sprintf("ObOk %s %s %s %s %s %s %s %s %s %s %s %s", cN(o.size), coqEnt(o.list), cStr(o.raw), coqStrs(o.order),
+		c13Names.get("list probe", CoqList(ps)), CoqBool(o.availAll), coqEnt(o.mapid), coqEnt(o.acceptall), coqEnt(o.exported),
+		sk(o.xjson), sk(o.xxml), c13Names.get("list (nat * option bool * option bool)", CoqList(es))))
 }
 
 func sameSet(a, b gmap) bool {
@@ -909,6 +1086,22 @@ func (o *stepObs) disagreements(want gmap, ms []gmap, okm []bool, probes []strin
 		eq = exp[i].K == o.exported[i].K && exp[i].V.same(o.exported[i].V)
 	}
 	add(eq, "export")
+	// JSON and XML export parsed back: exactly the entries of the map, values as they render
+	sameParsed := func(got []skv) bool {
+		if len(got) != len(exp) {
+			return false
+		}
+		g := append([]skv(nil), got...)
+		sort.SliceStable(g, func(i, j int) bool { return g[i].K < g[j].K })
+		for i := range exp {
+			if g[i].K != exp[i].K || g[i].V != exp[i].V.show() {
+				return false
+			}
+		}
+		return true
+	}
+	add(sameParsed(o.xjson), "export-json")
+	add(sameParsed(o.xxml), "export-xml")
 	for _, e := range o.eqs {
 		j := e[0].(int)
 		if !okm[j] {
@@ -950,6 +1143,8 @@ func observerFamilies(bad []string) string {
 			fam["get"] = true
 		case "list", "string", "map", "accept", "export":
 			fam["iter"] = true
+		case "export-json", "export-xml":
+			fam[b] = true
 		case "size":
 			fam["size"] = true
 		default:
@@ -1036,7 +1231,7 @@ func c13Case(h *history, id int, sum *Summary, cw *CaseWriter, corpus bool) {
 					firstBad = strings.SplitN(reprHead(so.repr), "(", 2)[0] + "/" + observerFamilies(bad)
 					firstBadWhat = fmt.Sprintf("step %d (%s), representation %s: observers %v disagree with the finite map", i, o.human(), so.repr, bad)
 					firstBadExp = fmt.Sprintf("size %d, entries %s", len(want), gval{K: "m", M: want}.show())
-					firstBadObs = fmt.Sprintf("size()=%d list()=%s string()=%s", so.size, gval{K: "m", M: so.list}.show(), so.raw)
+					firstBadObs = fmt.Sprintf("size()=%d list()=%s string()=%s json=%s xml=%s", so.size, gval{K: "m", M: so.list}.show(), so.raw, renderSkv(so.xjson), renderSkv(so.xxml))
 				}
 			}
 		}
@@ -1044,6 +1239,24 @@ func c13Case(h *history, id int, sum *Summary, cw *CaseWriter, corpus bool) {
 			// the implementation failed where the property demands success: later steps may need this value
 			h = &history{Probes: h.Probes, Ops: h.Ops[:i+1]}
 			break
+		}
+	}
+	// every value once more, after the whole history: later operations on a value must not have changed it
+	var finals []string
+	for i := range hs {
+		if hs[i] == nil {
+			continue
+		}
+		so := observe(hs, i, h.Probes)
+		finals = append(finals, "("+cNat(i)+", "+so.coq()+")")
+		sum.Count("reobserved", "values")
+		if firstBad == "" && okm[i] {
+			if bad := so.disagreements(ms[i], ms, okm, h.Probes); len(bad) > 0 {
+				firstBad = strings.SplitN(reprHead(so.repr), "(", 2)[0] + "/" + observerFamilies(bad) + "@later"
+				firstBadWhat = fmt.Sprintf("value h%d (%s), representation %s, observed again after the later steps of the history: observers %v disagree with the finite map it was built as", i, h.Ops[i].human(), so.repr, bad)
+				firstBadExp = fmt.Sprintf("size %d, entries %s", len(ms[i]), gval{K: "m", M: ms[i]}.show())
+				firstBadObs = fmt.Sprintf("size()=%d list()=%s string()=%s json=%s xml=%s", so.size, gval{K: "m", M: so.list}.show(), so.raw, renderSkv(so.xjson), renderSkv(so.xxml))
+			}
 		}
 	}
 	sum.Evaluations++
@@ -1058,7 +1271,7 @@ func c13Case(h *history, id int, sum *Summary, cw *CaseWriter, corpus bool) {
 	if !corpus {
 		sum.Sample(human)
 	}
-	cw.Add(fmt.Sprintf("(%s, %s, %s)", cN(id), coqStrs(h.Probes), CoqList(steps)))
+	cw.Add(fmt.Sprintf("(%s, %s, %s, %s)", cN(id), coqStrs(h.Probes), CoqList(steps), CoqList(finals)))
 	if firstBad != "" {
 		sum.GoViolations = append(sum.GoViolations, GoViolation{CaseID: id, What: firstBadWhat, Sig: sig, Human: human, Expected: firstBadExp, Observed: firstBadObs})
 	}
@@ -1216,8 +1429,45 @@ func (g *c13Gen) host() hop {
 	return hop{Op: "empty"}
 }
 
+// a branching history: several operations start from the SAME parent value (a merge result, or an accept
+// result that dropped entries), so an earlier child can be damaged by a later one if storage is shared
+func (g *c13Gen) branch() {
+	r := g.r
+	p := g.handle()
+	if r.Chance(0.4) && len(g.ms[p]) > 0 {
+		if q := g.add(hop{Op: "accept", H: p, F: "ne", FS: g.ms[p][r.Pick(len(g.ms[p]))].K}); g.ok[q] {
+			p = q
+		}
+	}
+	if r.Chance(0.6) {
+		h2 := g.add(g.lit(1+r.Pick(2), g.ms[p], false))
+		if q := g.add(hop{Op: "merge", H: p, H2: h2}); g.ok[q] {
+			p = q
+		}
+	}
+	for i, n := 0, 2+r.Pick(2); i < n; i++ {
+		switch k := r.Pick(10); {
+		case k < 7:
+			h2 := g.add(g.lit(1+r.Pick(2), g.ms[p], false))
+			g.add(hop{Op: "merge", H: p, H2: h2})
+		case k < 9:
+			key := g.key()
+			for t := 0; t < 5 && g.ms[p].get(key) != nil; t++ {
+				key = g.key()
+			}
+			g.add(hop{Op: "put", H: p, K: key, V: g.val()})
+		default:
+			g.replaceOn(p)
+		}
+	}
+}
+
 func (g *c13Gen) step() {
 	r := g.r
+	if r.Chance(0.12) {
+		g.branch()
+		return
+	}
 	switch k := r.Pick(100); {
 	case k < 8:
 		g.add(g.lit(r.Pick(5), nil, r.Chance(0.15)))
@@ -1371,12 +1621,21 @@ func c13Corpus() []*history {
 	// wrappers nested in each other
 	hsts = append(hsts, &history{Probes: []string{"a", "b", "c", "d"}, Ops: []hop{lit("a", 1, "b", 2), lit("b", 5, "d", 6), {Op: "replace", H: 0, H2: 1},
 		lit("c", 3), {Op: "merge", H: 2, H2: 3}, {Op: "put", H: 4, K: "d", V: gi(4)}, {Op: "replace", H: 5, H2: 1}, {Op: "eval", H: 6}, {Op: "put", H: 6, K: "a", V: gi(0)}}})
+	// branching merges: "+" must not share storage between m+{d:4} and m+{e:5} (seeded change C13-c)
+	hsts = append(hsts, &history{Probes: []string{"a", "c", "d", "e"}, Ops: []hop{lit("a", 1, "b", 2), lit("c", 3), {Op: "merge", H: 0, H2: 1},
+		lit("d", 4), {Op: "merge", H: 2, H2: 3}, lit("e", 5), {Op: "merge", H: 2, H2: 5}}})
+	hsts = append(hsts, &history{Probes: []string{"a", "b", "d", "e"}, Ops: []hop{lit("a", 1, "b", 2, "c", 3), {Op: "accept", H: 0, F: "ne", FS: "c"},
+		lit("d", 4), {Op: "merge", H: 1, H2: 2}, lit("e", 5), {Op: "merge", H: 1, H2: 4}}})
+	// export of empty string values and of the empty key, attribute form and entry form (seeded change C13-d)
+	hsts = append(hsts, &history{Probes: []string{"a", "b", ""}, Ops: []hop{{Op: "lit", Ents: []gkv{{"a", gs("")}, {"b", gs("y")}}},
+		{Op: "lit", Ents: []gkv{{"", gi(1)}, {"b", gs("")}}}, {Op: "put", H: 0, K: "c", V: gs("")}, {Op: "eval", H: 1},
+		{Op: "lit", Ents: []gkv{{"a", gval{K: "m", M: []gkv{{"p", gs("")}}}}, {"a b", gs("")}}}}})
 	// duplicate key in a literal
 	hsts = append(hsts, &history{Probes: []string{"a"}, Ops: []hop{lit("a", 1, "a", 2), lit("", 1, "", 2)}})
 	return hsts
 }
 
-const c13PerShard = 64
+const c13PerShard = 30
 
 // longest history outside the deep replace chains (quick 15, thorough 25)
 var c13MaxOps = 15
@@ -1389,7 +1648,7 @@ func cmdC13(seed int64, tier, outDir string) {
 	}
 	r := NewRng(seed)
 	sum := NewSummary("C13", seed, tier)
-	sum.Rule = "histories of up to 15 map operations (literal, host storages RealMap/ToMap/ToMapReflection/FuncMap/bin/EmptyMap, put, +, replace with replacement keys inside and outside the original key set, eval, map, accept, combine) over pools of 5-8 colliding keys (incl. '', quoted and non-ASCII keys), 18% of them replace chains deeper than the flattening threshold, run through value.New().Generate with handles as arguments; after every step all observers (size, list, string, member access, get, isAvail, ~, map, accept, export, = in both directions with the 5 most recent values (itself included)) are applied. Non-trivial = (representation tree as reported by VerifMapRepr, observer) with wrapper nesting depth >= 2; distinct by that pair"
+	sum.Rule = "histories of up to 15 map operations (literal, host storages RealMap/ToMap/ToMapReflection/FuncMap/bin/EmptyMap, put, +, replace with replacement keys inside and outside the original key set, eval, map, accept, combine) over pools of 5-8 colliding keys (incl. '', quoted and non-ASCII keys), 18% of them replace chains deeper than the flattening threshold, run through value.New().Generate with handles as arguments; after every step all observers (size, list, string, member access, get, isAvail, ~, map, accept, export calls, JSON and XML export parsed back by encoding/json and encoding/xml, = in both directions with the 5 most recent values (itself included)) are applied, and every value is observed once more after the whole history (12% of the steps branch: several operations on the same parent). Non-trivial = (representation tree as reported by VerifMapRepr, observer) with wrapper nesting depth >= 2; distinct by that pair"
 	cw := NewCaseWriter(outDir, "From P2 Require Import Base.Prelude Lib.MapLib Run.C13Run.", "c13_case", "c13_id", "c13_im", "c13_is", 1<<30)
 	if optReplay != "" {
 		var h history
